@@ -206,10 +206,26 @@ theorem umaxSkip_spec (bs : Bytes) (h : Bytes.wf bs) :
     · rw [if_neg hl]
       exact ⟨rfl, by omega, h⟩
 
-theorem INTEGER2umax_unsigned_spec (bs : Bytes) (h : Bytes.wf bs) :
+/-- the sign test of `asn_INTEGER2umax` decides the sign of the denoted value -/
+theorem isNegative_iff (bs : Bytes) (h : Bytes.wf bs) : isNegative bs = true ↔ twosVal bs < 0 := by
+  cases bs with
+  | nil => simp [isNegative, twosVal]
+  | cons b bs =>
+    have hlt := ofBE_lt (b :: bs) h
+    simp only [List.length_cons] at hlt
+    have hlt' : ((ofBE 0 (b :: bs) : Nat) : Int) < (256 : Int) ^ (bs.length + 1) := by exact_mod_cast hlt
+    simp only [isNegative, twosVal, decide_eq_true_eq]
+    by_cases hb : b < 128
+    · rw [if_pos hb]; omega
+    · rw [if_neg hb]; omega
+
+/-- `asn_INTEGER2umax` on an INTEGER that passes the sign test: the unsigned reading of the octets -/
+theorem INTEGER2umax_unsigned_spec (bs : Bytes) (h : Bytes.wf bs) (hn : isNegative bs = false) :
     INTEGER2umax bs = if unsVal bs < 2 ^ 64 then .ok (unsVal bs) else .erange := by
   have := umaxSkip_spec bs h
   unfold INTEGER2umax unsVal
+  rw [hn]
+  simp only [Bool.false_eq_true, if_false]
   split at this
   · rename_i heq; rw [heq]; simp; omega
   · rename_i r heq; rw [heq]
